@@ -81,6 +81,12 @@ pub trait Monitor: Sync {
     fn cold_start(&self, _rec: &mut Recorder) {}
 }
 
+/// Which input the first call of this process goes to: 0 in the parent, 1..=96 in the cold-start
+/// children (a process-wide "nothing seen yet" state is primed by whatever comes first).
+pub fn cold_rot() -> usize {
+    std::env::var("VERIF_COLDSTART_ROT").ok().and_then(|s| s.parse().ok()).unwrap_or(0)
+}
+
 /// Runs `f(i)` on `n` threads that are released together by a spin barrier; returns the results.
 pub fn race_start<R: Send>(n: usize, f: impl Fn(usize) -> R + Sync) -> Vec<R> {
     let ready = std::sync::atomic::AtomicUsize::new(0);
@@ -217,12 +223,14 @@ pub fn run(monitor: &dyn Monitor, cfg: &RunCfg) -> i32 {
             if let Ok(exe) = std::env::current_exe() {
                 let mut reports: Vec<String> = Vec::new();
                 let mut ran = 0u64;
-                for _round in 0..12 {
+                for round in 0..12 {
                     let kids: Vec<_> = (0..8)
-                        .filter_map(|_| {
+                        .filter_map(|k| {
+                            // every second child runs the whole-API probe before the monitor's own
                             std::process::Command::new(&exe)
                                 .args(["coldstart", monitor.id()])
-                                .env("VERIF_COLDSTART_CHILD", "1")
+                                .env("VERIF_COLDSTART_CHILD", if k % 2 == 0 { "1" } else { "2" })
+                                .env("VERIF_COLDSTART_ROT", (round * 8 + k + 1).to_string())
                                 .stdout(std::process::Stdio::piped())
                                 .stderr(std::process::Stdio::null())
                                 .spawn()
